@@ -60,6 +60,9 @@ class BackupManager:
             backup_name = self.DEFAULT_BACKUP_NAME
         if self.backups_dict and backup_name in self.backups_dict:
             return False
+        # The backup may have been made through another manager object or process after this one was created.
+        if os.path.exists(os.path.join(self.backups_path, backup_name, self.BACKUP_DICTIONARY)):
+            return False
         backup = {}
         time_stamp = f"{str(datetime.now())}"
         if verbose:
